@@ -97,6 +97,21 @@ func gen(t *rapid.T) *Case {
 		}
 		c.Paths = append(c.Paths, ps)
 	}
+	if rapid.IntRange(0, 7).Draw(t, "wildcard-scenario") == 0 {
+		// a request that omits the key of an outer list, with stored siblings whose key value or name
+		// textually extends the requested one below that list
+		k := rapid.IntRange(0, 2).Draw(t, "ws-key")
+		if rapid.Bool().Draw(t, "ws-shape") {
+			// /plain/l1/sub[id=1](/v) with sub[id=10] stored next to it (template 13 = plain/l1/sub/v; ids 1, 2, 10)
+			c.Running = append(c.Running, vlib.LeafSel{T: 13, K: []int{k, 0}, V: 0}, vlib.LeafSel{T: 13, K: []int{k, 2}, V: 1})
+			c.Paths = append(c.Paths, PathSel{Leaf: vlib.LeafSel{T: 13, K: []int{k, 0}}, Up: rapid.IntRange(0, 1).Draw(t, "ws-up"), Masks: []int{1}})
+		} else {
+			// /plain/l1/descr with descr-long stored (templates 8 and 9)
+			c.Running = append(c.Running, vlib.LeafSel{T: 8, K: []int{k}, V: 0}, vlib.LeafSel{T: 9, K: []int{rapid.IntRange(0, 2).Draw(t, "ws-key2")}, V: 1})
+			c.Paths = append(c.Paths, PathSel{Leaf: vlib.LeafSel{T: 8, K: []int{k}}, Masks: []int{1}})
+		}
+		np = len(c.Paths)
+	}
 	c.Root = np == 0 || rapid.IntRange(0, 5).Draw(t, "root") == 0
 	c.Enc = int32(rapid.SampledFrom([]int{0, 1, 2, 3, 0, 1, 2, 3, 4}).Draw(t, "enc"))
 	c.DSType = rapid.SampledFrom([]string{"main", "main", "main", "intended"}).Draw(t, "ds")
